@@ -861,3 +861,30 @@ Qed.
 Lemma slot_plain_decrement_refuted :
   exists sched, qs_active (fst (run _ _ (qrelease false) (qsinit, [false; false]) sched)) = (-1)%Z.
 Proof. exists [0; 1]. vm_compute. reflexivity. Qed.
+
+(* ================================================================================================ *)
+(* R. the context is tested on every iteration of the read loop                                      *)
+(* ================================================================================================ *)
+(* once Close has cancelled the context, a read polling an idle reader returns after at most two steps of its own, whatever
+   else runs *)
+Theorem polling_read_returns_after_close sh ls h :
+  rd_cancel sh = true -> (nth_error ls h = Some RChk \/ nth_error ls h = Some RRd \/ nth_error ls h = Some RRet) ->
+  nth_error (snd (run _ _ (rdstep true) (sh, ls) [h; h])) h = Some RRet.
+Proof.
+  intros Hc Hh. destruct sh as [c]. cbn in Hc. subst c.
+  assert (Hlen : h < length ls) by (apply nth_error_Some; destruct Hh as [E|[E|E]]; congruence).
+  cbn [run fold_left]. unfold sys_step at 2. cbn [fst snd].
+  destruct Hh as [E|[E|E]]; rewrite E; cbn [rdstep rd_cancel fst snd];
+    unfold sys_step; cbn [fst snd]; rewrite nth_error_upd_nth_same by exact Hlen; cbn [rdstep rd_cancel fst snd];
+    rewrite nth_error_upd_nth_same by (rewrite upd_nth_length; exact Hlen); reflexivity.
+Qed.
+
+(* the test hoisted out of the loop: Close returns, the read keeps polling and no schedule ever ends it *)
+Lemma hoisted_context_check_refuted :
+  exists pre,
+    let s := run _ _ (rdstep false) ({| rd_cancel := false |}, [RChk; RCl]) pre in
+    snd s = [RRd; RClDone] /\ rd_cancel (fst s) = true /\ (forall sched, run _ _ (rdstep false) s sched = s).
+Proof.
+  exists [0; 1]. split; [vm_compute; reflexivity|]. split; [vm_compute; reflexivity|].
+  apply run_fixpoint. intros [|[|i]]; try (vm_compute; reflexivity). destruct i; vm_compute; reflexivity.
+Qed.
